@@ -4,7 +4,8 @@
 # demonstration fails with the change and passes without it.
 set -u
 d=$1; orig=$2
-wt=/tmp/wt-confirm
+wt=${CONFIRM_WT:-/tmp/wt-confirm}
+lg=/tmp/confirm-$(basename $wt)
 [ -d $wt ] || git -C /repo worktree add --detach $wt HEAD -q
 cd $wt && git checkout -q -- . && git clean -fdq -e target
 # the seed was made against the /repo head of its time: use the newest head it applies to (current head first)
@@ -12,19 +13,19 @@ git checkout -q --detach $(git -C /repo rev-parse HEAD)
 git apply --check $d/patch.diff 2>/dev/null || git checkout -q --detach ${SEED_BASE:-2f6e929}
 export CARGO_TARGET_DIR=$wt/target CARGO_NET_OFFLINE=true
 git apply $d/patch.diff || { echo "CONFIRM patch-does-not-apply"; exit 1; }
-cargo test --workspace --offline > /tmp/confirm-tests.log 2>&1
-if [ $? -ne 0 ]; then echo "CONFIRM tests-fail-with-change"; grep -E "^test .*FAILED|^error" /tmp/confirm-tests.log | head; git checkout -q -- .; exit 1; fi
-n=$(grep -E "^test result: ok" /tmp/confirm-tests.log | sed -E 's/.*ok\. ([0-9]+) passed.*/\1/' | paste -sd+ | bc)
+cargo test --workspace --offline > $lg-tests.log 2>&1
+if [ $? -ne 0 ]; then echo "CONFIRM tests-fail-with-change"; grep -E "^test .*FAILED|^error" $lg-tests.log | head; git checkout -q -- .; exit 1; fi
+n=$(grep -E "^test result: ok" $lg-tests.log | sed -E 's/.*ok\. ([0-9]+) passed.*/\1/' | paste -sd+ | bc)
 echo "passed=$n"
 echo "tests pass with change"
 git apply $d/demo.diff || { echo "CONFIRM demo-does-not-apply"; git checkout -q -- .; exit 1; }
 names=$(grep -E '^\+\s*(pub )?(async )?fn [a-zA-Z0-9_]+' $d/demo.diff | sed -E 's/.*fn ([a-zA-Z0-9_]+).*/\1/' | sort -u)
 echo "demo tests: "$names
 rc1=0; rc2=0
-: > /tmp/confirm-with.log; : > /tmp/confirm-without.log
-for t in $names; do cargo test --workspace --offline $t >> /tmp/confirm-with.log 2>&1 || rc1=1; done
+: > $lg-with.log; : > $lg-without.log
+for t in $names; do cargo test --workspace --offline $t >> $lg-with.log 2>&1 || rc1=1; done
 git apply -R $d/patch.diff
-for t in $names; do cargo test --workspace --offline $t >> /tmp/confirm-without.log 2>&1 || rc2=1; done
+for t in $names; do cargo test --workspace --offline $t >> $lg-without.log 2>&1 || rc2=1; done
 git checkout -q -- . && git clean -fdq -e target
 echo "demo rc with change=$rc1 without=$rc2"
-if [ $rc1 -ne 0 ] && [ $rc2 -eq 0 ]; then echo "CONFIRM ok"; else echo "CONFIRM demo-unconvincing"; tail -n 5 /tmp/confirm-with.log /tmp/confirm-without.log; exit 1; fi
+if [ $rc1 -ne 0 ] && [ $rc2 -eq 0 ]; then echo "CONFIRM ok"; else echo "CONFIRM demo-unconvincing"; tail -n 5 $lg-with.log $lg-without.log; exit 1; fi
